@@ -171,6 +171,8 @@ func (*c08) Execute(ci any) (res any) {
 		}
 		obs.Hooks = c08Hooks(rel.Hooks)
 		obs.Manifest = []byte(rel.Manifest)
+	case "uninstall":
+		c08RunUninstall(c, &obs)
 	case "barrier":
 		c08RunBarrier(c, &obs)
 	}
